@@ -22,6 +22,21 @@ func (m *Manager) SyncLoop(ctx context.Context, errCh chan<- error) {
 	metricsTicker := time.NewTicker(30 * time.Second)
 	defer metricsTicker.Stop()
 
+	// The caches loaded at start-up may already hold the header and the data of the next height: after a
+	// crash the cache files of an earlier clean stop are older than the store, and every re-delivery of
+	// what they hold is dropped as already seen. Apply what is applicable now instead of waiting for the
+	// next new event.
+	if err := m.trySyncNextBlock(ctx, 0); err != nil {
+		if ctx.Err() != nil {
+			return
+		}
+		select {
+		case errCh <- fmt.Errorf("failed to sync next block: %w", err):
+		default: // an error is already pending, only the first one is propagated
+		}
+		return
+	}
+
 	for {
 		select {
 		case <-daTicker.C:
